@@ -37,7 +37,7 @@ type LJKV struct {
 }
 
 type LJInput struct {
-	Kind   string `json:"kind"` // round | table | surface | hostile
+	Kind   string `json:"kind"` // round | table | surface | hostile | fresh (Script = the victim, Name = the tampering script)
 	Value  any    `json:"value,omitempty"`
 	Floats bool   `json:"floats,omitempty"` // numbers handed over as float64 instead of int64
 	Table  *LJVal `json:"table,omitempty"`
@@ -54,6 +54,9 @@ type LJObs struct {
 	Probes  map[string]bool `json:"probes,omitempty"`
 	Millis  int64           `json:"millis,omitempty"`
 	Outcome string          `json:"outcome,omitempty"` // table | error | other | panic
+	Before  string          `json:"before,omitempty"`  // fresh: the victim's result before / after the tampering script ran
+	After   string          `json:"after,omitempty"`
+	Leak    bool            `json:"leak,omitempty"` // fresh: a later script can see a global the tampering script left behind
 }
 
 type luajsonEngine struct{}
@@ -227,6 +230,24 @@ func (luajsonEngine) Run(inAny any) (out any) {
 			"load runs a string":      ljProbe("local f = (loadstring or load)('return 42') return f ~= nil and f() == 42"),
 		}
 		obs.OK = true
+	case "fresh":
+		// the same well-behaved script before and after another rollout's script that tampers with everything it can reach
+		victim := func() string {
+			l, err := m.RunLuaScript(&unstructured.Unstructured{Object: map[string]any{"weight": int64(20), "name": "web"}}, in.Script)
+			if err != nil {
+				return "error: " + firstLine(err.Error())
+			}
+			js, err := luamanager.Encode(l.Get(-1))
+			if err != nil {
+				return "encode error: " + firstLine(err.Error())
+			}
+			return string(js)
+		}
+		obs.Before = victim()
+		_, _ = m.RunLuaScript(&unstructured.Unstructured{Object: map[string]any{"secret": "s3cr3t", "weight": int64(99)}}, in.Name)
+		obs.After = victim()
+		obs.Leak = ljProbe("return leaked ~= nil or (rawget(_G, 'counter') ~= nil)")
+		obs.OK = true
 	case "hostile":
 		t0 := time.Now()
 		func() {
@@ -347,7 +368,32 @@ func (luajsonEngine) Coq(inAny any, obsAny any) string {
 		sort.Strings(ps)
 		return emit.App("CSurface", emit.ListOf(obs.Names, emit.Str), emit.ListOf(ps, func(k string) string { return emit.Pair(emit.Str(k), emit.Bool(obs.Probes[k])) }))
 	}
+	if in.Kind == "fresh" {
+		return emit.App("CFresh", emit.Str(obs.Before), emit.Str(obs.After), emit.Bool(obs.Leak), emit.Bool(obs.Panic != ""))
+	}
 	return emit.App("CHostile", emit.Str(in.Name), emit.Z(obs.Millis), emit.Str(obs.Outcome))
+}
+
+// scripts of one rollout that tamper with whatever a script can reach, and well-behaved scripts of another
+var ljTamper = []string{
+	"tostring = nil tonumber = nil return {}",
+	"string.format = function() return 'pwned' end return {}",
+	"table.insert = nil table.concat = function() return 'pwned' end return {}",
+	"math.floor = function(x) return 0 end return {}",
+	"json.encode = nil json.decode = nil return {}",
+	"leaked = obj.secret counter = (counter or 0) + 1 return {}",
+	"setmetatable(_G, {__index = function(t, k) return 7 end}) return {}",
+	"getmetatable('').__index = function() return function() return 'pwned' end end return {}",
+	"pairs = function(t) return function() return nil end, t, nil end ipairs = pairs return {}",
+	"rawset(_G, 'obj', {weight = 1}) type = function() return 'nil' end return {}",
+	"error('boom after tampering: ' .. tostring(rawset(_G, 'leaked', 1)))",
+}
+var ljVictim = []string{
+	"local t = {} table.insert(t, tostring(obj.weight)) table.insert(t, obj.name) return {s = table.concat(t, '-'), n = tonumber('5')}",
+	"return {s = string.format('%s:%d', obj.name, obj.weight), u = ('abc'):upper()}",
+	"local n = 0 for k, v in pairs(obj) do n = n + 1 end return {n = n, f = math.floor(obj.weight / 3), ty = type(obj.weight)}",
+	"local d = json.decode(json.encode({w = obj.weight})) return {w = d.w, undefined_is_nil = (some_undefined_name == nil)}",
+	"return {w = obj.weight, seen = (leaked ~= nil), c = (counter or 0)}",
 }
 
 var ljHostile = [][2]string{
@@ -479,6 +525,9 @@ func (luajsonEngine) Gen(r *rand.Rand, idx int, tier string) any {
 	if idx <= len(ljHostile) {
 		h := ljHostile[idx-1]
 		return LJInput{Kind: "hostile", Name: h[0], Script: h[1]}
+	}
+	if idx%9 == 5 {
+		return LJInput{Kind: "fresh", Script: ljVictim[r.Intn(len(ljVictim))], Name: ljTamper[r.Intn(len(ljTamper))]}
 	}
 	if chance(r, 55) {
 		return LJInput{Kind: "round", Value: genLJValue(r, 4), Floats: chance(r, 40)}
